@@ -69,8 +69,11 @@ def evaluate(case, rec):
     for s in states:
       tmp = mujoco.MjData(mjm)
       H.set_mjd(tmp, s)
-      for _ in range(nset):
-        mujoco.mj_step(mjm, tmp)
+      try:
+        for _ in range(nset):
+          mujoco.mj_step(mjm, tmp)
+      except mujoco.FatalError:
+        raise Reject("mujoco aborts on this model")
       if np.all(np.isfinite(tmp.qpos)) and np.all(np.isfinite(tmp.qvel)) and np.max(np.abs(tmp.qvel), initial=0) < 50:
         s["qpos"], s["qvel"], s["act"] = H.f32(tmp.qpos), H.f32(tmp.qvel), H.f32(tmp.act)
   H.set_data(d, states)
@@ -89,7 +92,11 @@ def evaluate(case, rec):
   for w in range(n):
     mjd = mujoco.MjData(ref)
     H.set_mjd(mjd, states[w])
-    mujoco.mj_forward(ref, mjd)
+    try:
+      mujoco.mj_forward(ref, mjd)
+    except mujoco.FatalError:
+      rec.rejected += 1  # MuJoCo aborts on explicit pairs between static bodies
+      continue
     W = World()
     W.w, W.mjd, W.state = w, mjd, states[w]
     W.cw, W.cm = H.contacts(d, w), H.mj_contacts(mjd)
@@ -101,7 +108,11 @@ def evaluate(case, rec):
     same.opt.tolerance = max(mjm.opt.tolerance, 1e-6)
     mjd2 = mujoco.MjData(same)
     H.set_mjd(mjd2, states[w])
-    mujoco.mj_forward(same, mjd2)
+    try:
+      mujoco.mj_forward(same, mjd2)
+    except mujoco.FatalError:
+      rec.rejected += 1
+      continue
     W.qacc_same = np.array(mjd2.qacc)
     pairs, ua, ub = H.match_contacts(W.cw, W.cm)
     ok = not (ua or ub) and all(
